@@ -176,7 +176,13 @@ def reader_corr(report, drv, lean, rng, caps, n_seqs, maxlen, on_mismatch, trunc
                 _oracle(on_mismatch, "cpp", cap, h, ops_j, got, exp, full)
                 gp = drv.ask("py", f"R {cap} {h or '-'} " + " ".join(rtok(o) for o in rops)).split()
                 report.count("stream.reader.py.full" if full else "stream.reader.py.cut")
-                _oracle(on_mismatch, "py", cap, h, rops, gp, exp, full, has_vf=False)
+                # the Python stream against its Lean model (PIS), token for token, EOFError vs BufferError included
+                mp = lean.ask({"op": "pis", "cap": cap, "hex": h, "ops": rops})["out"]
+                if "BUFERR" in mp:
+                    report.count("stream.reader.py.model-buffer-error")
+                if mp != gp:
+                    on_mismatch("reader-model-vs-impl", "py", {"cap": cap, "hex": h, "ops": rops, "model": mp, "impl": gp})
+                _oracle(on_mismatch, "py", cap, h, rops, ["EOS" if t == "BUFERR" else t for t in gp], exp, full, has_vf=False)
 
 
 def _oracle(on_mismatch, lang, cap, h, ops, got, exp, full, has_vf=True):
